@@ -258,10 +258,16 @@ def check(pid, tier):
             # service's own lease file read (and aged) through the harness's connection
             import http_rig
             pk = [s for s in scen if s.get("lvl") == "pkt" and not any(st["k"] == "msg" and st.get("relay") for st in s["steps"])]
-            pick = pk if run.thorough else run.rng.sample(pk, min(len(pk), 60))
+            # the directed histories always (message types and server identifiers in sequence, boundary seconds, fills), the rest sampled
+            dirs = [s for s in pk if s["sc"].startswith("dir-")]
+            rest = [s for s in pk if not s["sc"].startswith("dir-")]
+            pick = pk if run.thorough else dirs + run.rng.sample(rest, min(len(rest), 45))
             tf, sl, p = http_rig.run_full(run, pid, [{"acls": None, "lease": s, "steps": []} for s in pick], "lease")
             if not any('"lvl":"svc"' in l for l in sl):
                 raise ToolError("rig full produced no service-level lease events (exit %s): %s" % (p.returncode, (p.stderr or "")[-300:]))
+            lost = sum(1 for l in sl if '"ev":"undelivered"' in l)
+            if lost:
+                run.notes.append("%d frame(s) of the service-level lease scenarios were never counted by the service (not delivered); they are not events" % lost)
             rep = tlc_trace(run, "LeaseTrace", "LeaseTrace.cfg", tf, {"Enforce": tla_set([pid])}, tag="svc")
             record_violations(run, pid, rep["viol"], sl, trace_name="dhcp-svc")
             run.drift += len(rep["drift"])
